@@ -249,6 +249,33 @@ pub fn register(l: &mut Vec<Obl>) {
             r.goal("same_standard_identity", same.red.eqv(v[0]) & same.green.eqv(v[1]) & same.blue.eqv(v[2]));
             r
         });
+    obl!(l; "c01_rgb_standard_change_of_cylindrical_spaces", "C01", Tier::Quick,
+        "HSV / HSL / HWB of one RGB standard converted to the same space of another standard that shares the primaries but not the transfer function (sRGB -> linear sRGB) is exactly the route through the two RGB colours (same terms), and differs from copying the components; same standard -> same standard is the identity",
+        ["<Hsv<S2,T> as FromColorUnclamped<Hsv<S1,T>>>", "<Hsl<S2,T> as FromColorUnclamped<Hsl<S1,T>>>", "<Hwb<S2,T> as FromColorUnclamped<Hwb<S1,T>>>"],
+        [var("h", 0.0, 360.0), var("p", 0.0, 1.0), var("q", 0.0, 1.0)];
+        |v| {
+            let mut r = Res::<B>::new();
+            let hsv = Hsv::<Srgb, T>::new(v[0], v[1], v[2]);
+            let d: Hsv<Linear<Srgb>, T> = Hsv::from_color_unclamped(hsv);
+            let s: Hsv<Linear<Srgb>, T> = Hsv::from_color_unclamped(LinSrgb::<T>::from_color_unclamped(Rgb::<Srgb, T>::from_color_unclamped(hsv)));
+            r.goal("hsv_same_terms", d.hue.into_inner().eqv(s.hue.into_inner()) & d.saturation.eqv(s.saturation) & d.value.eqv(s.value));
+            let same: Hsv<Srgb, T> = Hsv::from_color_unclamped(hsv);
+            r.goal("hsv_identity", same.hue.into_inner().eqv(v[0]) & same.saturation.eqv(v[1]) & same.value.eqv(v[2]));
+            let hsl = Hsl::<Srgb, T>::new(v[0], v[1], v[2]);
+            let d: Hsl<Linear<Srgb>, T> = Hsl::from_color_unclamped(hsl);
+            let s: Hsl<Linear<Srgb>, T> = Hsl::from_color_unclamped(LinSrgb::<T>::from_color_unclamped(Rgb::<Srgb, T>::from_color_unclamped(hsl)));
+            r.goal("hsl_same_terms", d.hue.into_inner().eqv(s.hue.into_inner()) & d.saturation.eqv(s.saturation) & d.lightness.eqv(s.lightness));
+            let same: Hsl<Srgb, T> = Hsl::from_color_unclamped(hsl);
+            r.goal("hsl_identity", same.hue.into_inner().eqv(v[0]) & same.saturation.eqv(v[1]) & same.lightness.eqv(v[2]));
+            let hwb = Hwb::<Srgb, T>::new(v[0], v[1], v[2] * (T::k(1.0) - v[1]));
+            let d: Hwb<Linear<Srgb>, T> = Hwb::from_color_unclamped(hwb);
+            let via: Hsv<Linear<Srgb>, T> = Hsv::from_color_unclamped(LinSrgb::<T>::from_color_unclamped(Rgb::<Srgb, T>::from_color_unclamped(Hsv::<Srgb, T>::from_color_unclamped(hwb))));
+            let s: Hwb<Linear<Srgb>, T> = Hwb::from_color_unclamped(via);
+            r.goal("hwb_same_terms", d.hue.into_inner().eqv(s.hue.into_inner()) & d.whiteness.eqv(s.whiteness) & d.blackness.eqv(s.blackness));
+            let same: Hwb<Srgb, T> = Hwb::from_color_unclamped(hwb);
+            r.goal("hwb_identity", same.hue.into_inner().eqv(v[0]) & same.whiteness.eqv(hwb.whiteness) & same.blackness.eqv(hwb.blackness));
+            r
+        });
     obl!(l; "c01_alpha_is_transparent_to_conversion", "C01", Tier::Quick,
         "attaching a transparency value never changes the converted colour and the transparency comes out unchanged: \
          Alpha<C2>::from_color_unclamped(Alpha{c, a}) has exactly the terms of C2::from_color_unclamped(c) and a (sRGB->Lab, HSV->RGB, Lab->XYZ, XYZ->xyY, sRGB->Oklab, HSV->HWB)",
